@@ -767,6 +767,9 @@ func roScenario(sh shape, ops []roOp, plan [][]int, maxBound int) scenario {
 		names[t] = strings.Join(ns, ";")
 	}
 	name := fmt.Sprintf("%s :: %s", sh.Name, strings.Join(names, " || "))
+	// expected results of the calls (sequential twin): computed once per scenario and process - the scenario is
+	// rebuilt for every execution, the sequential answers of a deterministic library do not change
+	var wantCache [][]string
 	return scenario{Name: name, Family: "readonly", MaxBound: maxBound, Mk: func() *instance {
 		shared := sh.Mk()
 		twin := sh.Mk()
@@ -783,6 +786,11 @@ func roScenario(sh shape, ops []roOp, plan [][]int, maxBound int) scenario {
 			th := &thr{own: at.NewList(100 + t), ownObj: at.NewObject("own", 100+t, "a", 50+t)}
 			// expected results: the same calls made sequentially on a twin
 			town, townObj := at.NewList(100+t), at.NewObject("own", 100+t, "a", 50+t)
+			if wantCache != nil {
+				th.want = wantCache[t]
+				ths[t] = th
+				continue
+			}
 			for _, i := range p {
 				// the sequential twin runs under the scheduler as well (alone, default schedule): library code that
 				// spawns and waits needs its synchronisation to be live
@@ -792,6 +800,12 @@ func roScenario(sh shape, ops []roOp, plan [][]int, maxBound int) scenario {
 				th.want = append(th.want, w)
 			}
 			ths[t] = th
+		}
+		if wantCache == nil {
+			wantCache = make([][]string, len(ths))
+			for t, th := range ths {
+				wantCache[t] = th.want
+			}
 		}
 		return &instance{Body: func() {
 			var wg rtJoiner
